@@ -78,7 +78,12 @@ def main():
                     except Exception:
                         pass
                     break
-            rec["checks"][p] = {"exit": rc, "lines": lines[:6], "first_signature": sig, "wall_s": round(time.time() - t0, 1)}
+            nv = None
+            try:
+                nv = json.load(open(os.path.join(VERIF, "evidence", p + ".json"))).get("violations")
+            except Exception:        # noqa: BLE001
+                pass
+            rec["checks"][p] = {"exit": rc, "lines": lines[:6], "first_signature": sig, "distinct_violation_signatures": nv, "wall_s": round(time.time() - t0, 1)}
             print("  ./check %s quick -> exit %d %s" % (p, rc, (sig or "")[:160]))
     finally:
         sh("git -C /repo checkout -q -- .")
